@@ -34,6 +34,13 @@ CLAIMED = {
          "requires distinct handles to denote distinct local resources and the state-variable names of a procedure to be pairwise different, different from '.stack'/'.pc' (svOK: assumed of the generated procTable, not proved of the compiler); the procedure's PreAmble is a dynamically dispatched call with an assumed open-world contract; two genuine defects were repaired first (fix: cb880fd8, 4e2075a7). "
          "Proof hints (/verif/hints.json: unsat cores of earlier runs) select the hypotheses offered to the solver first; the full VC is the fallback and soundness does not depend on the file.",
          "contract-based deductive verification: WP over go/ssa, unbounded loop invariants with cut assertions, abstract-value contracts of the tla layer, z3/cvc5"),
+ "C06": ("Deductive proof, per function and for all queue contents, of the transactional queue discipline of the link end points, over exact element sequences: for InputChan, relaxedMailboxesLocal and tcpMailboxesLocal the messages received and not yet consumed by a committed section are (reads of the section in flight) ++ backlog, in arrival order; "
+         "ReadValue hands out the front element and moves it to the in-flight list, takes a new message (for TCP: a whole record, kept contiguous and in order) from the underlying channel only when the backlog is empty and exactly once (ghost receive count), a timeout returns ErrCriticalSectionAborted having changed nothing; "
+         "Abort puts the in-flight reads back in front of the backlog in order (redelivered first; for mailboxes with the same abstract values), Commit drops exactly the in-flight reads; length() reports the number of messages the mailbox already holds after moving at most one record over. "
+         "OutputChan: writes are appended to a buffer and nothing is sent before Commit (frame), Abort discards them, the commit goroutine sends exactly the buffered values, each once, in order (cut-point obligation at the send), then empties the buffer.",
+         "NOT covered, hence not decided: the network side of the mailboxes (handleConn's begin/value/precommit/commit protocol, tcpMailboxesRemote / relaxedMailboxesRemote, gob, reconnect and resend), SingleOutputChan, raftkvs customch.go, and the end-to-end statement 'received sequence == sent sequence' that composes both ends (argued in DESIGN.md section 3 (C06)). "
+         "Assumed: every record in tcpMailboxesLocal.msgChannel carries at least one message and its slice is not shared with the receiver's slices (declared channel invariant; its only sender handleConn is not under contract); time.After returns a fresh channel; channels are never closed by a third party.",
+         "contract-based deductive verification: WP over go/ssa with an aliasing-aware model of append/slices, ghost send/receive counts and last-received value per channel, loop invariants, z3/cvc5"),
  "C07": ("Deductive proof of strict two-phase locking for the shared-variable manager (localshared.go), per function and for all states: the shared variable is read, written, indexed, committed or rolled back only while the sharer holds the lock (obligation at every call into the shared LocalArchetypeResource); "
          "the lock (a capacity-one channel used as a semaphore, with ghost send/receive counts) is taken only on first access, a timed-out acquisition returns ErrCriticalSectionAborted having changed nothing, every method keeps 'tokens put in minus taken out == hasLock', "
          "and the token is given back only by Commit/Abort, after the shared variable has been committed / restored to the last committed value (obligation at every release call); PreCommit, Close and a section that never touched the variable touch nothing.",
